@@ -1,0 +1,7 @@
+//go:build !verif
+
+package middleware
+
+import "net/http"
+
+func verifStage(string, *http.Request, ...any) {}
